@@ -47,6 +47,13 @@ def eval_guard(expr, env, classify):
         l = eval_guard(expr.left, env, classify)
         r = eval_guard(expr.right, env, classify)
         return l + r if isinstance(expr.op, ast.Add) else l - r
+    if isinstance(expr, ast.BinOp) and isinstance(expr.op, (ast.Mult, ast.FloorDiv)):
+        l = eval_guard(expr.left, env, classify)
+        r = eval_guard(expr.right, env, classify)
+        return l * r if isinstance(expr.op, ast.Mult) else l // r
+    if isinstance(expr, ast.Call) and isinstance(expr.func, ast.Name) and expr.func.id in ("max", "min") and expr.args and not expr.keywords:
+        vs = [eval_guard(x, env, classify) for x in expr.args]
+        return max(vs) if expr.func.id == "max" else min(vs)
     if isinstance(expr, ast.Compare):
         left = eval_guard(expr.left, env, classify)
         for op, c in zip(expr.ops, expr.comparators):
